@@ -637,3 +637,50 @@ func CheckInitialSnapshots(res *Result, ref *Ref, pkg *gen.Pkg) (out []Finding, 
 	}
 	return
 }
+
+// CheckDebugOutputs compares, for development-mode requests, the per-block debug outputs of every
+// module (map outputs, store deltas) delivered with the linear blocks against the sequential reference.
+func CheckDebugOutputs(res *Result, ref *Ref, pkg *gen.Pkg) (out []Finding, compared int) {
+	if res.Spec.Prod || ref.NoExecInfo {
+		return
+	}
+	for _, d := range res.Data() {
+		rb := ref.Blocks[d.Num]
+		if rb == nil || rb.ID != d.ID {
+			continue
+		}
+		for _, mo := range d.Raw.DebugMapOutputs {
+			if mo.MapOutput == nil {
+				continue
+			}
+			compared++
+			if !bytes.Equal(mo.MapOutput.Value, rb.MapOut[mo.Name]) {
+				out = append(out, finding("debug-output/map-differs", "block %d: debug output of module %s is %q, sequential reference %q", d.Num, mo.Name, trunc(string(mo.MapOutput.Value), 200), trunc(string(rb.MapOut[mo.Name]), 200)))
+				return
+			}
+		}
+		for _, so := range d.Raw.DebugStoreOutputs {
+			pr := pkg.Progs[so.Name]
+			if pr == nil {
+				continue
+			}
+			want := rb.Deltas[so.Name]
+			compared++
+			if len(want) != len(so.DebugStoreDeltas) {
+				out = append(out, finding("debug-output/delta-count-differs", "block %d: store %s reports %d deltas, sequential reference %d", d.Num, so.Name, len(so.DebugStoreDeltas), len(want)))
+				return
+			}
+			for i, g := range so.DebugStoreDeltas {
+				w := want[i]
+				if g.Operation != w.Operation || g.Ordinal != w.Ordinal || g.Key != w.Key ||
+					native.Norm(pr.Policy, pr.VT, g.OldValue) != native.Norm(pr.Policy, pr.VT, w.OldValue) ||
+					native.Norm(pr.Policy, pr.VT, g.NewValue) != native.Norm(pr.Policy, pr.VT, w.NewValue) {
+					out = append(out, finding("debug-output/delta-differs", "block %d: store %s delta %d is {%v ord=%d key=%q %q->%q}, sequential reference {%v ord=%d key=%q %q->%q}", d.Num, so.Name, i,
+						g.Operation, g.Ordinal, g.Key, g.OldValue, g.NewValue, w.Operation, w.Ordinal, w.Key, w.OldValue, w.NewValue))
+					return
+				}
+			}
+		}
+	}
+	return
+}
